@@ -52,6 +52,14 @@ def rand_case(rng, kinds=("hash", "probe", "counter"), memo="False", maxdim=6):
 
 def gen(ctx):
     rng = ctx.rng
+    for _ in range(ctx.n(40, 400)):
+        # memoized evolutions of pure rules are synchronous torus updates too — also when the same rule object drove an
+        # evolution with the other neighbourhood type, another radius or another mode just before (decided by C04's oracle)
+        from . import c04
+        from .. import prelude
+        x = c04.rand_case(rng, maxdim=6)
+        x["prelude"] = ["same_rule_other_nb"] + prelude.choose(rng, 2)
+        yield dict(kind="memo4", case=x)
     for _ in range(ctx.n(30, 300)):
         yield dict(kind="szero", R=rng.randint(2, 5), C=rng.randint(2, 5), T=rng.randint(3, 6), memo=rng.choice(["True", "recursive_lit"]),
                    nb=rng.choice(["Moore", "von Neumann"]), dyn=int(rng.random() < 0.3), seed=rng.randrange(10 ** 6))
@@ -110,7 +118,7 @@ def gen(ctx):
 
 
 def line(c):
-    if c["kind"] == "szero":
+    if c["kind"] in ("szero", "memo4"):
         return None
     if c["kind"] == "mask":
         return "vn_mask r=%d" % c["r"]
@@ -134,7 +142,7 @@ def _mask_impl(r):
 
 
 def impl(c):
-    if c["kind"] == "szero":
+    if c["kind"] in ("szero", "memo4"):
         return "n/a"
     if c["kind"] == "mask":
         return "ok " + fmt.mat(_mask_impl(c["r"]))
@@ -145,6 +153,9 @@ def impl(c):
 
 
 def oracle(c):
+    if c["kind"] == "memo4":
+        from . import c04
+        return c04.oracle(c["case"])
     if c["kind"] == "szero":
         # memoized evolution of a pure, sign-of-zero-sensitive rule on a float automaton holding +0.0 and -0.0:
         # every appended row is still the synchronous update (bitwise the unmemoized one)
@@ -177,7 +188,7 @@ def oracle(c):
 
 
 def nontrivial(c, ans):
-    if c["kind"] == "szero":
+    if c["kind"] in ("szero", "memo4"):
         return True
     if c["kind"] == "mask":
         return c["r"] >= 1
